@@ -44,11 +44,27 @@ def log(msg):
     print(msg, flush=True)
 
 
+def prebuilt_rocksdb():
+    """A librocksdb.a left by the repository's own build (saves ~10 min of C++
+    compilation in the Kani and replay target dirs; Kani links nothing anyway)."""
+    import glob
+    for pat in ("/repo/target/debug/build/librocksdb-sys-*/out/librocksdb.a",
+                "/repo/target/release/build/librocksdb-sys-*/out/librocksdb.a"):
+        hits = sorted(glob.glob(pat), key=os.path.getmtime, reverse=True)
+        if hits:
+            return os.path.dirname(hits[0])
+    return None
+
+
 def base_env():
     env = dict(os.environ)
     env["CARGO_NET_OFFLINE"] = "true"
     env.pop("RUSTFLAGS", None)
     env.pop("CARGO_TARGET_DIR", None)
+    d = prebuilt_rocksdb()
+    if d and "ROCKSDB_LIB_DIR" not in env:
+        env["ROCKSDB_LIB_DIR"] = d
+        env["ROCKSDB_STATIC"] = "1"
     return env
 
 
@@ -102,7 +118,12 @@ def hpath(name):
 
 def kani_cmd(crate, extra):
     cfg = registry.CRATES[crate]
-    cmd = ["cargo", "kani", "--target-dir", kani_target(crate), "-Z", "stubbing"]
+    # -Z restrict-vtable: resolve `dyn` calls (including drop-in-place of boxed
+    # trait objects) to the types that actually implement the trait; without it
+    # CBMC considers every function of a compatible signature (measured: the
+    # drop of one `Pin<Box<dyn Future>>` pulled in std::backtrace's destructors
+    # and never finished).
+    cmd = ["cargo", "kani", "--target-dir", kani_target(crate), "-Z", "stubbing", "-Z", "restrict-vtable"]
     cmd += cfg.get("kani_args", [])
     cmd += extra
     return cmd
